@@ -128,6 +128,54 @@ def random_sessions(rng, n, max_ann, max_off):
     return out
 
 
+def handle_sessions(rng, n, max_off=12):
+    """queries interleaved with adds and removes, each through one of several live handles of the same view (the root, handles
+    from get_view / create_view taken at different times): every handle must answer from the view's current index"""
+    out = []
+    types = list(TREE)
+    for _ in range(n):
+        sb = SB()
+        ts = sb.ts_new()
+        for c, p in TREE.items():
+            sb.create_type(ts, c, p)
+        h0 = sb.cas_new(ts, text="x" * (max_off + 1))
+        h1 = sb.create_view(h0, "v2")
+        handles = {"_InitialView": [h0, sb.get_view(h1, "_InitialView")], "v2": [h1, sb.get_view(h0, "v2")]}
+        shadow = {"_InitialView": [], "v2": []}
+        qmeta = []
+        for step in range(rng.randint(8, 30)):
+            v = rng.choice(["_InitialView", "_InitialView", "v2"])
+            r = rng.random()
+            if r < 0.15:
+                handles[v].append(sb.get_view(rng.choice(handles[rng.choice(list(handles))]), v))
+            elif r < 0.5 or not shadow[v]:
+                b = rng.randint(0, max_off); e = rng.randint(b, min(max_off, b + rng.choice([0, 1, 3, max_off])))
+                t = rng.choice(types)
+                l = sb.fs_new(ts, t, {"begin": b, "end": e})
+                sb.op(op="cas.add", h=rng.choice(handles[v]), fs=l)
+                shadow[v].append((l, b, e, t))
+            elif r < 0.62:
+                x = rng.choice(shadow[v])
+                sb.op(op="cas.remove", h=rng.choice(handles[v]), fs=x[0])
+                shadow[v].remove(x)
+            else:
+                # the same query through two handles of the view in a row, then (next steps) mutations through any handle
+                b0, e0 = rng.choice(shadow[v])[1:3]
+                qb = max(0, b0 - rng.randint(0, 1)); qe = min(max_off, e0 + rng.randint(0, 1))
+                kind = rng.choice(["covered", "covering"])
+                T = rng.choice(types + ["uima.tcas.Annotation"])
+                sub = subtree(T)
+                for h in rng.sample(handles[v], min(2, len(handles[v]))):
+                    i = sb.op(op="cas.select_" + kind, h=h, type=T, by=rng.choice(["name", "object"]), b=qb, e=qe)
+                    if kind == "covered":
+                        exp = [l for (l, b, e, t) in shadow[v] if t in sub and qb <= b and e <= qe]
+                    else:
+                        exp = [l for (l, b, e, t) in shadow[v] if t in sub and b <= qb and qe <= e]
+                    qmeta.append((i, sorted(exp), len(shadow[v])))
+        out.append((sb.ops, qmeta))
+    return out
+
+
 def dynamic_sessions(rng, n):
     """the type tree grows *during* the history: query, create a type below a proper descendant, add, query"""
     out = []
@@ -215,7 +263,7 @@ def evaluate(ctx, out, sess, tag):
 
 def run(ctx, out, budget):
     out.rule = ("sessions = type tree P>C>D, U; annotations in two views; queries select_covered/select_covering by "
-                "type object / full name / short name; a stream in which the type tree grows between queries. Non-trivial = distinct (session, query) whose expected result "
+                "type object / full name / short name; a stream in which the type tree grows between queries; a stream in which queries are interleaved with adds and removes through several live handles of each view. Non-trivial = distinct (session, query) whose expected result "
                 "is a non-empty strict subset of the view's annotations.")
     if budget in ("quick", "thorough", "search"):
         ex = exhaustive_sessions()
@@ -225,6 +273,7 @@ def run(ctx, out, budget):
                                 "assignments x all 10 query spans x {covered, covering}; exhaustive for that sub-space only")
     rng = ctx.rng(1)
     evaluate(ctx, out, dynamic_sessions(ctx.rng(2), bud(budget, 150, 12000)), "dyn")
+    evaluate(ctx, out, handle_sessions(ctx.rng(3), bud(budget, 150, 8000)), "handles")
     if budget == "quick":
         evaluate(ctx, out, random_sessions(rng, 120, 40, 30), "rnd")
     else:
